@@ -88,6 +88,39 @@ def rule_u1_u3(repo, col):
             col.decide("U2", m, f.node, not bad, "every binding of a variable to a term is preceded by the occurs test (OccursCheck on the other edge)",
                        "unify_value binds a variable to a term on a path that did not establish `var not in term.variables()`: X = f(X) succeeds with a cyclic binding",
                        construct="def unify_value: occurs check before binding", function=fname)
+        if fname == "unify_value":
+            # U6: two distinct named variables: BOTH end up bound to the common value
+            both = False
+            for p in paths:
+                a, b, conds = _case(p, v1, v2)
+                if a and b:
+                    st = [args[0] for fn, args, _ in p.calls if fn == "<store>"]
+                    if "source_values[%s]" % v1 in st and "source_values[%s]" % v2 in st:
+                        both = True
+            col.decide("U6", m, f.node, both, "unifying two named variables can bind both of them to the common value",
+                       "unify_value (var,var): no path binds BOTH variables: after X is bound, unifying X with an unbound Y leaves Y free, so a later conflicting binding of Y is accepted "
+                       "(f(X,X,Y) \\= f(a,Y,b) fails although the terms have no unifier)", construct="def unify_value: var/var binds both", function=fname)
+        if fname == "unify_value_dc":
+            # U2b: occurs checks compare a variable with the variables of a term of the SAME context
+            ctx = {v1: "S", v2: "T"}
+            for n in walk_no_nested(f.node):
+                if isinstance(n, ast.Assign) and isinstance(n.targets[0], ast.Name) and isinstance(n.value, ast.Call) and isinstance(n.value.func, ast.Attribute) and n.value.func.attr == "get":
+                    src = norm(n.value.func.value)
+                    if src in ("source_values", "target_values"):
+                        ctx[n.targets[0].id] = "T"  # values of both maps live in the target context
+            nocc = 0
+            for n in walk_no_nested(f.node):
+                if isinstance(n, ast.Compare) and len(n.ops) == 1 and isinstance(n.ops[0], ast.In) and isinstance(n.comparators[0], ast.Call) \
+                        and isinstance(n.comparators[0].func, ast.Attribute) and n.comparators[0].func.attr == "variables":
+                    x, y = norm(n.left), norm(n.comparators[0].func.value)
+                    if x in ctx and y in ctx:
+                        nocc += 1
+                        col.decide("U2", m, n, ctx[x] == ctx[y], "occurs test within one variable context",
+                                   "unify_value_dc tests whether %s (context %s) occurs in %s (context %s): variables of different naming contexts never coincide, so the test can "
+                                   "never detect the cycle (p(X,f(X)). q(Y) :- p(Y,Y). succeeds with a cyclic binding)" % (x, "caller" if ctx[x] == "S" else "callee/result", y, "caller" if ctx[y] == "S" else "callee/result"),
+                                   function=fname)
+            if nocc < 1:
+                col.fail("U2", m, f.node, "unify_value_dc has no occurs check on the path that links a bound call variable with a result term", construct="def unify_value_dc: occurs check", function=fname)
         # U3 compound case
         comp = None
         for n in walk_no_nested(f.node):
@@ -163,5 +196,6 @@ def run(repo, col):
     col.rule("U3", "compound case: equal signature, pairwise recursion, rebuild")
     col.rule("U4", "=/2 and \\=/2 are complements")
     col.rule("U5", "OccursCheck is a GroundingError")
+    col.rule("U6", "(var,var): both variables get bound")
     rule_u1_u3(repo, col)
     rule_u4(repo, col)
